@@ -44,4 +44,50 @@ let cmd_wire args =
        ^ " " ^ string_of_int (int_of_n st.x_next))
   | _ -> failwith "wire"
 
-let () = Common.register "wire" cmd_wire
+(* query <labels> <values> <links> <path as hex of its characters> <template> *)
+let chars_of_string (s : string) : BinNums.coq_N list =
+  SL.init (String.length s) (fun i -> n_of_int (Char.code s.[i]))
+
+let cmd_query args =
+  match args with
+  | labels :: vals :: links :: pathhex :: tmpl ->
+    let labels_a = if labels = "-" then [] else String.split_on_char ',' labels in
+    let vals = Drv_coder.parse_values vals in
+    let links = if links = "-" then [] else
+        SL.map (fun kv -> match String.split_on_char '>' kv with
+            | [a; b] -> (n_of_string a, n_of_string b) | _ -> failwith "links") (String.split_on_char ',' links) in
+    let (t, _) = Drv_coder.parse_template tmpl in
+    let ndesc = n_of_int (SL.length labels_a) in
+    let path_chars = bytes_of_hex pathhex in
+    (match PathParser.parse path_chars with
+     | Base.Err e -> "parse-" ^ err_string e
+     | Base.Ok p ->
+       (match wire ndesc vals links t with
+        | Base.Err e -> "wire-" ^ err_string e
+        | Base.Ok (nodes, st) ->
+          let lab = SL.map chars_of_string labels_a in
+          (match Query.process_one_subset st.x_attrs lab (nat_of_int 200) nodes p with
+           | Base.Err e -> err_string e
+           | Base.Ok vs ->
+             let rec sv (v : Query.vres) = match v with
+               | Query.VIdx i -> string_of_int (int_of_n i)
+               | Query.VList l -> "[" ^ String.concat "," (SL.map sv l) ^ "]" in
+             "ok [" ^ String.concat "," (SL.map sv vs) ^ "]")))
+  | _ -> failwith "query"
+
+(* qsubsets <n> <path hex> *)
+let cmd_qsubsets args =
+  match args with
+  | [n; pathhex] ->
+    (match PathParser.parse (bytes_of_hex pathhex) with
+     | Base.Err e -> "parse-" ^ err_string e
+     | Base.Ok p ->
+       (match Query.subset_indices (nat_of_int (int_of_string n)) p with
+        | Base.Err e -> err_string e
+        | Base.Ok l -> "ok " ^ (if l = [] then "-" else String.concat "," (SL.map string_of_z l))))
+  | _ -> failwith "qsubsets"
+
+let () =
+  Common.register "wire" cmd_wire;
+  Common.register "query" cmd_query;
+  Common.register "qsubsets" cmd_qsubsets
